@@ -1121,10 +1121,22 @@ def judge_case(ctx, case):
     return ans, impl
 
 
+SHRINK = {'deadline': None}
+
+
+def _shrink_time_left():
+    import time
+    return SHRINK['deadline'] is None or time.time() < SHRINK['deadline']
+
+
 def shrink(ctx, case, clause):
     for _ in range(8):
+        if not _shrink_time_left():
+            return case
         smaller = None
-        for sc in sub_cases(case):
+        for sc in sub_cases(case)[:16]:
+            if not _shrink_time_left():
+                break
             try:
                 ans, _ = judge_case(ctx, sc)
             except Exception:
@@ -1149,9 +1161,11 @@ def shrink(ctx, case, clause):
     # a failure that needs a large value: halve arrays / strings / blobs anywhere in the value while it still fails
     calls = 0
     progress = True
-    while progress and calls < 60:
+    while progress and calls < 60 and _shrink_time_left():
         progress = False
         for vj in smaller_values(case['tree'], case['v']):
+            if not _shrink_time_left():
+                break
             cand = dict(case, v=vj)
             calls += 1
             try:
@@ -1316,6 +1330,8 @@ def run(ctx):
 
     CH = 10000
     shrunk = 0
+    import time
+    shrink_budget = 40.0 if ctx.tier == 'quick' and not ctx.escalated else 300.0      # seconds; shrinking large failing values costs time
     libfails = 0
     seen_unshrunk = set()
     for start in range(0, len(cases), CH):
@@ -1400,7 +1416,10 @@ def run(ctx):
                 seen_unshrunk.add((clause, t))
                 if shrunk < 60:
                     shrunk += 1
+                    t0 = time.time()
+                    SHRINK['deadline'] = t0 + max(0.0, shrink_budget)
                     small = shrink(ctx, c, clause)
+                    shrink_budget -= time.time() - t0
                 _, simpl, _ = eval_case(small)
                 res.violations.append({'sig': signature(clause, small), 'what': f'{clause}: ' + describe(small, simpl),
                                        'case': small, 'detail': {'clause': clause, 'original': c if small is not c else None}})
